@@ -76,6 +76,7 @@ fn main() {
     let t0 = std::time::Instant::now();
     let mut runner = Runner::new(prop, tier, seed);
     runner.run_probes();
+    runner.run_regressions();
     runner.run_plan();
     let code = runner.finish(t0.elapsed().as_secs_f64());
     std::process::exit(code);
